@@ -37,6 +37,11 @@ def judge(case):
         return [f"exception {type(e).__name__}: {e}"]
     if arr.shape != (n, 7):
         return [f"array shape {arr.shape}, expected {(n, 7)}"]
+    with quiet():
+        arr_again = np.asarray(fg.get_full_grid_as_array())
+    if not np.array_equal(arr_again, arr):
+        return [f"a second call of get_full_grid_as_array() on the same grid returns different rows "
+                f"(max deviation {np.abs(arr_again - arr).max():.3g})"]
     quats, dirs, radii = expected_parts(case)
     idx = np.arange(n)
     pos_i, q_i = idx // n_b, idx % n_b
